@@ -71,7 +71,7 @@ func HarnessC03ExtractFull() {
 
 func c03CheckExtract(h string) {
 	c := MapCarrier{traceparentHeader: h}
-	sc := TraceContext{}.extract(c)
+	sc := c03Extract(c)
 	if !sc.IsValid() {
 		vndReach("rejected")
 		vndAssert(sc.Equal(trace.SpanContext{}), "invalid-extract-yields-empty-context")
@@ -111,8 +111,8 @@ func HarnessC03ExtractState() {
 	vndAssume(vndAnd(c03RefHexRun(a), vndAnd(c03RefHexRun(b), c03RefHexRun(f))))
 	h := "00-0af7651916cd43dd8448eb211c8031" + a + "9-00f067aa0ba902b" + b + "-0" + f
 	t := vndString(vndParam("TN", 4))
-	sc1 := TraceContext{}.extract(MapCarrier{traceparentHeader: h})
-	sc2 := TraceContext{}.extract(MapCarrier{traceparentHeader: h, tracestateHeader: t})
+	sc1 := c03Extract(MapCarrier{traceparentHeader: h})
+	sc2 := c03Extract(MapCarrier{traceparentHeader: h, tracestateHeader: t})
 	vndAssert(sc1.IsValid() == sc2.IsValid(), "tracestate-does-not-change-validity")
 	if !sc1.IsValid() {
 		return
@@ -164,4 +164,43 @@ func HarnessC03RoundTrip() {
 	vndAssert(got.TraceState().String() == sc.TraceState().String(), "roundtrip-tracestate")
 	vndAssert(got.IsRemote(), "roundtrip-remote")
 	vndAssert(got.TraceFlags() == sc.TraceFlags()&trace.FlagsSampled, "roundtrip-only-sampled-flag")
+}
+
+// C03.extractinto: the public Extract applied to a context that already
+// carries a span context: a malformed (or absent) traceparent leaves it
+// untouched, a well-formed one replaces it by a valid remote span context
+func HarnessC03ExtractInto() {
+	existing := trace.NewSpanContext(trace.SpanContextConfig{TraceID: trace.TraceID{1}, SpanID: trace.SpanID{2}, TraceFlags: trace.FlagsSampled})
+	ctx0 := trace.ContextWithSpanContext(context.Background(), existing)
+	c := MapCarrier{}
+	wellFormed := false
+	switch vndChoice(3) {
+	case 0: // no header
+	case 1: // short garbage
+		c[traceparentHeader] = vndString(vndParam("GN", 3))
+	case 2: // the right shape with three arbitrary characters
+		a, b, f := vndStringN(1), vndStringN(1), vndStringN(1)
+		h := "00-0af7651916cd43dd8448eb211c8031" + a + "9-00f067aa0ba902b" + b + "-0" + f
+		c[traceparentHeader] = h
+	}
+	// which headers the decoder accepts is the subject of HarnessC03Extract /
+	// ExtractFull (checked against the grammar there); here: what the public
+	// entry point does with the decoder's answer
+	inner := trace.SpanContextFromContext(TraceContext{}.Extract(context.Background(), c))
+	wellFormed = inner.IsValid()
+	ctx1 := TraceContext{}.Extract(ctx0, c)
+	got := trace.SpanContextFromContext(ctx1)
+	vndAssert(got.IsValid(), "extract-never-leaves-an-invalid-span-context")
+	if wellFormed {
+		vndReach("replaced")
+		vndAssert(got.IsRemote() && got.Equal(inner), "well-formed-traceparent-yields-the-remote-context")
+	} else {
+		vndReach("untouched")
+		vndAssert(got.Equal(existing), "malformed-traceparent-leaves-the-context-untouched")
+	}
+}
+
+// the decoder through the public entry point only (private signatures may change)
+func c03Extract(c TextMapCarrier) trace.SpanContext {
+	return trace.SpanContextFromContext(TraceContext{}.Extract(context.Background(), c))
 }
